@@ -80,6 +80,7 @@ type TypeContract struct {
 	Invs   []Clause
 	Opts   map[string]string
 	Locks  []*LockDecl
+	Sent   []Clause // `sent <expr over self>`: proved of every *T sent on a channel, assumed of every *T received
 }
 
 // LockDecl: `lock <mutex field> protects f1 f2 …` and `lockinv <mutex field> <expr over self>`.
@@ -156,7 +157,7 @@ func newContracts() *Contracts {
 var clauseKeywords = map[string]bool{
 	"func": true, "type": true, "tags": true, "mode": true, "requires": true, "modifies": true, "ensures": true,
 	"loop": true, "at": true, "ghost": true, "invariant": true, "pure": true, "axiom": true, "lemma": true,
-	"trusted": true, "panics": true, "noreturn": true, "params": true, "results": true, "skip": true, "sweep": true, "refines": true, "coverage": true,
+	"trusted": true, "panics": true, "noreturn": true, "params": true, "results": true, "skip": true, "sweep": true, "refines": true, "coverage": true, "sent": true,
 	"ifaceghost": true, "assume-text": true, "opt": true, "smt": true, "replay": true, "intview": true, "lock": true, "lockinv": true, "rely": true, "globallock": true, "globallockinv": true,
 }
 
@@ -312,6 +313,15 @@ func (c *Contracts) loadFile(path, pkg string, trusted bool) error {
 			curF.NoReturn = true
 		case "skip":
 			curF.Skip = true
+		case "sent":
+			if curT == nil {
+				return fmt.Errorf("%s:%d: sent outside type", path, rc.line)
+			}
+			cl, err := mkClause(rc.text, rc.line)
+			if err != nil {
+				return err
+			}
+			curT.Sent = append(curT.Sent, cl)
 		case "coverage":
 			fs := strings.Fields(rc.text)
 			if len(fs) != 2 || fs[0] != "exported-bytes" {
